@@ -16,6 +16,7 @@ LEVEL_TEXT = ('Radiogenic additivity/half-life/linearity/reference-time facts ar
 LEVEL_NOTE = ('Trusted: front-end, interpreter, differentiation and sign rules, positivity assumptions listed in the evidence. Not decided: Arrhenius with the extra T factor (not monotone for T > E/R), '
               'the float-eps switch in `convection` at contrasts below 2.2e-16.')
 EXPLANATION = 'R19.1 radiogenics; R19.2 piecewise region tables and floors (melting laws); R19.3 kind consistency of mask-sum branches; R19.4 derivative signs (cooling, viscosity, Henning viscosity).'
+EXPLANATION += ' R19.7 the array twin: every interpreted call repeated with array arguments (mutable cells) returns the scalar values element for element and leaves the arguments intact.'
 
 
 def run(chk):
